@@ -174,11 +174,28 @@ def consequence(ns, res, r, script, origin, scratch, budget_left):
     positions = [p for p, _ in script.positions()
                  if script.nested()[p[0]][0] == 'assert']
     r.shuffle(positions)
+    ddmin_pattern = r.random() < 0.5
+    prefiltered = {}
+    if ddmin_pattern:
+        # the calling pattern of strategy ddmin at granularity > 1: one
+        # mutator instance filters all nodes of a subset first and is asked
+        # for the mutations of each of them afterwards
+        res.count('consequence_scripts_in_ddmin_calling_pattern')
+        for mname, m in muts:
+            for path_ in positions[:6]:
+                try:
+                    prefiltered[(mname, path_)] = bool(
+                        m.filter(node_at(exprs, path_)))
+                except Exception:  # noqa
+                    prefiltered[(mname, path_)] = False
     for path_ in positions[:6]:
         node = node_at(exprs, path_)
         for mname, m in muts:
             try:
-                if not m.filter(node):
+                if ddmin_pattern:
+                    if not prefiltered.get((mname, path_)):
+                        continue
+                elif not m.filter(node):
                     continue
                 if ns.smtlib.get_sort(node) is None:
                     # ReplaceByChild also tries children when both sorts are
